@@ -1,7 +1,7 @@
 use std::cmp::Ordering;
 use std::fmt::Display;
 
-use rusty_bit_vec::{MIN_INTEGER, MIN_LONG};
+use rusty_bit_vec::{MAX_INTEGER, MAX_LONG, MIN_INTEGER, MIN_LONG};
 
 use crate::fit::FitToType;
 use crate::{UserDefinedTypeValue, VArray, qb_and, qb_or};
@@ -90,7 +90,12 @@ macro_rules! div {
         if $div.approximate_eq(0) {
             Err($crate::VariantError::DivisionByZero)
         } else {
-            Ok(($nom / $div).fit_to_type())
+            let quotient = $nom / $div;
+            if quotient.is_finite() {
+                Ok(quotient.fit_to_type())
+            } else {
+                Err($crate::VariantError::Overflow)
+            }
         }
     };
 
@@ -98,7 +103,12 @@ macro_rules! div {
         if $div.approximate_eq(0) {
             Err($crate::VariantError::DivisionByZero)
         } else {
-            Ok(($nom as $cast / $div as $cast).fit_to_type())
+            let quotient = $nom as $cast / $div as $cast;
+            if quotient.is_finite() {
+                Ok(quotient.fit_to_type())
+            } else {
+                Err($crate::VariantError::Overflow)
+            }
         }
     };
 }
@@ -198,7 +208,7 @@ impl Variant {
     }
 
     pub fn plus(self, other: Self) -> Result<Self, VariantError> {
-        match self {
+        (match self {
             Self::VSingle(f_left) => match other {
                 Self::VSingle(f_right) => Ok(Self::VSingle(f_left + f_right)),
                 Self::VDouble(d_right) => Ok(Self::VDouble(f_left as f64 + d_right)),
@@ -226,11 +236,12 @@ impl Variant {
                 _ => other.plus(self),
             },
             _ => Err(VariantError::TypeMismatch),
-        }
+        })
+        .and_then(Self::ensure_in_range)
     }
 
     pub fn minus(self, other: Self) -> Result<Self, VariantError> {
-        match self {
+        (match self {
             Self::VSingle(f_left) => match other {
                 Self::VSingle(f_right) => Ok(Self::VSingle(f_left - f_right)),
                 Self::VDouble(d_right) => Ok(Self::VDouble(f_left as f64 - d_right)),
@@ -254,11 +265,12 @@ impl Variant {
                 _ => other.minus(self).and_then(|x| x.negate()),
             },
             _ => Err(VariantError::TypeMismatch),
-        }
+        })
+        .and_then(Self::ensure_in_range)
     }
 
     pub fn multiply(self, other: Self) -> Result<Self, VariantError> {
-        match self {
+        (match self {
             Self::VSingle(f_left) => match other {
                 Self::VSingle(f_right) => Ok(Self::VSingle(f_left * f_right)),
                 Self::VDouble(d_right) => Ok(Self::VDouble(f_left as f64 * d_right)),
@@ -282,6 +294,23 @@ impl Variant {
                 _ => other.multiply(self),
             },
             _ => Err(VariantError::TypeMismatch),
+        })
+        .and_then(Self::ensure_in_range)
+    }
+
+    /// Ensures the result of an arithmetic operation fits the range of its type.
+    fn ensure_in_range(self) -> Result<Self, VariantError> {
+        let in_range = match &self {
+            Self::VInteger(i) => (MIN_INTEGER..=MAX_INTEGER).contains(i),
+            Self::VLong(l) => (MIN_LONG..=MAX_LONG).contains(l),
+            Self::VSingle(f) => f.is_finite(),
+            Self::VDouble(d) => d.is_finite(),
+            _ => true,
+        };
+        if in_range {
+            Ok(self)
+        } else {
+            Err(VariantError::Overflow)
         }
     }
 
